@@ -215,4 +215,282 @@ theorem Buffer.push_spec (b : Buffer) (src : Bytes) (h : b.WF) :
   · simp [Buffer.push]; omega
   · simp [Buffer.push, List.length_take]; omega
 
+
+/-! ## in-memory vectored read into fresh buffers -/
+
+/-- `Vec::with_capacity(c)` for each capacity -/
+def fresh (caps : List Nat) : List MBuf := caps.map fun c => ⟨[], 0, c⟩
+
+/-- members after the copy loop, before the length is recorded -/
+def written : List Nat → Bytes → List MBuf
+  | [], _ => []
+  | c :: cs, s => ⟨s.take c, 0, c⟩ :: written cs (s.drop c)
+
+/-- the reference: the source cut by capacities, each member holding (and recording) its chunk -/
+def filled : List Nat → Bytes → List MBuf
+  | [], _ => []
+  | c :: cs, s => ⟨s.take c, (s.take c).length, c⟩ :: filled cs (s.drop c)
+
+theorem written_nil (caps : List Nat) : written caps [] = fresh caps := by
+  induction caps with
+  | nil => rfl
+  | cons c cs ih => simp [written, fresh] at ih ⊢; exact ih
+
+theorem viewCaps_fresh (caps : List Nat) : viewCaps (fresh caps) 0 = caps := by
+  induction caps with
+  | nil => rfl
+  | cons c cs ih => simp only [fresh, List.map_cons, viewCaps] at ih ⊢; rw [ih]; simp
+
+theorem take_min_length (s : Bytes) (c : Nat) : s.take (min s.length c) = s.take c := by
+  rcases Nat.le_total s.length c with h | h
+  · rw [Nat.min_eq_left h, List.take_of_length_le (Nat.le_refl _), List.take_of_length_le h]
+  · rw [Nat.min_eq_right h]
+
+theorem scatterGo_fresh : ∀ (caps : List Nat) (s : Bytes), scatterGo (fresh caps) 0 s = written caps s := by
+  intro caps
+  induction caps with
+  | nil => intro s; rfl
+  | cons c cs ih =>
+    intro s
+    simp only [fresh, List.map_cons, scatterGo, written, Nat.sub_zero]
+    have hov : overlay ([] : Bytes) 0 (s.take (min s.length c)) = s.take c := by
+      simp [overlay, take_min_length]
+    rw [hov]
+    split
+    · rename_i he
+      have hd : s.drop c = [] := by
+        have : s.drop (min s.length c) = [] := by simpa using he
+        apply List.eq_nil_of_length_eq_zero
+        have hl := congrArg List.length this
+        simp [List.length_drop] at hl ⊢
+        omega
+      rw [hd, written_nil]
+      rfl
+    · rename_i he
+      have hmin : min s.length c = c := by
+        rcases Nat.le_total s.length c with h | h
+        · exfalso
+          apply he
+          rw [Nat.min_eq_left h]
+          simp
+        · exact Nat.min_eq_right h
+      rw [hmin]
+      have := ih (s.drop c)
+      simp only [fresh] at this
+      rw [this]
+
+theorem sumNat_initLens_written (caps : List Nat) (s : Bytes) : sumNat (initLens (written caps s) 0) = 0 := by
+  induction caps generalizing s with
+  | nil => rfl
+  | cons c cs ih => simp [written, initLens, sumNat, ih]
+
+theorem written_eq_filled_of_zero : ∀ (caps : List Nat) (s : Bytes), min s.length (sumNat caps) = 0 →
+    written caps s = filled caps s := by
+  intro caps
+  induction caps with
+  | nil => intro s _; rfl
+  | cons c cs ih =>
+    intro s h
+    simp only [sumNat] at h
+    simp only [written, filled]
+    have h0 : (s.take c).length = 0 := by rw [List.length_take]; omega
+    rw [h0, ih (s.drop c) (by rw [List.length_drop]; omega)]
+
+theorem setLenAll_written : ∀ (caps : List Nat) (s : Bytes),
+    setLenAll (written caps s) (min s.length (sumNat caps)) = .ok (filled caps s) := by
+  intro caps
+  induction caps with
+  | nil => intro s; rfl
+  | cons c cs ih =>
+    intro s
+    by_cases h0 : min s.length (sumNat (c :: cs)) = 0
+    · rw [h0, ← written_eq_filled_of_zero (c :: cs) s h0]
+      simp [written, setLenAll]
+    · simp only [written, filled, setLenAll, if_neg h0]
+      simp only [sumNat] at h0 ⊢
+      have hsub : min c (min s.length (c + sumNat cs)) = (s.take c).length := by
+        rw [List.length_take]; omega
+      have hrest : min s.length (c + sumNat cs) - (s.take c).length =
+          min (s.drop c).length (sumNat cs) := by
+        rw [List.length_drop, List.length_take]; omega
+      simp only [MBuf.setLen, hsub, Nat.le_refl, if_true, hrest, ih (s.drop c)]
+
+/-- **in-memory vectored read into fresh buffers** (`&[u8]::read_vectored`, `[u8]::read_vectored_at`,
+`Cursor`, `BufReader::read_vectored`): the source is cut by capacities, in order, every member
+records exactly its chunk, the count is `min(|src|, total capacity)`. No panic. -/
+theorem memReadVectored_fresh (src : Bytes) (caps : List Nat) :
+    memReadVectored src (VS.plain (fresh caps)) =
+      (.ok (min src.length (sumNat caps)), VS.plain (filled caps src)) := by
+  unfold memReadVectored
+  simp only [VS.plain, VS.viewCaps, List.drop_zero, List.take_zero, List.nil_append, viewCaps_fresh,
+    scatterGo_fresh]
+  unfold VS.advanceVecTo
+  have hinit : (⟨written caps src, 0, 0, 0⟩ : VS).initOk = true := by
+    unfold VS.initOk
+    split <;> simp
+  simp only [hinit, Bool.not_true, Bool.false_eq_true, if_false, VS.initLens, List.drop_zero,
+    sumNat_initLens_written, Nat.zero_add]
+  by_cases h0 : min src.length (sumNat caps) = 0
+  · rw [h0, if_neg (by omega), written_eq_filled_of_zero caps src h0]
+  · rw [if_pos (by omega), setLenAll_written]
+
+/-- the concatenation of the chunks is the prefix of the source that fits -/
+theorem filled_flatten : ∀ (caps : List Nat) (s : Bytes),
+    ((filled caps s).map MBuf.data).flatten = s.take (sumNat caps) := by
+  intro caps
+  induction caps with
+  | nil => intro s; simp [filled, sumNat]
+  | cons c cs ih =>
+    intro s
+    simp only [filled, List.map_cons, List.flatten_cons, ih, sumNat, MBuf.data]
+    rw [List.take_of_length_le (Nat.le_refl _), List.take_add]
+
+
+/-! ## the default vectored loop on partially filled fresh buffers -/
+
+/-- `slice_mut(n)` only looks at capacities -/
+def posAt : List Nat → Nat → Nat × Nat
+  | [], off => (0, off)
+  | c :: cs, off => if c > off then (0, off) else ((posAt cs (off - c)).1 + 1, (posAt cs (off - c)).2)
+
+theorem sliceMutPos_filled : ∀ (caps : List Nat) (d : Bytes) (n : Nat),
+    sliceMutPos (filled caps d) n = posAt caps n := by
+  intro caps
+  induction caps with
+  | nil => intro d n; rfl
+  | cons c cs ih =>
+    intro d n
+    simp only [filled, sliceMutPos, posAt]
+    split
+    · rfl
+    · rw [ih]
+
+theorem filled_nil (caps : List Nat) : filled caps [] = fresh caps := by
+  induction caps with
+  | nil => rfl
+  | cons c cs ih => simp [filled, fresh] at ih ⊢; exact ih
+
+theorem viewCaps_filled (caps : List Nat) (d : Bytes) : viewCaps (filled caps d) 0 = caps := by
+  induction caps generalizing d with
+  | nil => rfl
+  | cons c cs ih => simp only [filled, viewCaps, ih]; simp
+
+/-- the member `slice_mut(|d|)` points into: recorded length = offset = what was written, room left -/
+theorem filled_at_pos : ∀ (caps : List Nat) (d : Bytes), d.length < sumNat caps →
+    ∃ m, (filled caps d)[(posAt caps d.length).1]? = some m ∧ m.len = (posAt caps d.length).2 ∧
+      m.mem.length = m.len ∧ (posAt caps d.length).2 < m.cap ∧
+      m.cap - (posAt caps d.length).2 ≤ sumNat caps - d.length := by
+  intro caps
+  induction caps with
+  | nil => intro d h; simp [sumNat] at h
+  | cons c cs ih =>
+    intro d h
+    simp only [sumNat] at h
+    simp only [filled, posAt, sumNat]
+    split
+    · rename_i hc
+      refine ⟨_, rfl, ?_, rfl, hc, ?_⟩
+      · simp [List.length_take]; omega
+      · simp only []; omega
+    · rename_i hc
+      have hl : (d.drop c).length = d.length - c := List.length_drop
+      obtain ⟨m, h1, h2, h3, h4, h5⟩ := ih (d.drop c) (by omega)
+      rw [hl] at h1 h2 h4 h5
+      exact ⟨m, by simpa using h1, h2, h3, h4, by simp only []; omega⟩
+
+theorem setLenAll_zero (bufs : List MBuf) : setLenAll bufs 0 = .ok bufs := by
+  cases bufs <;> simp [setLenAll]
+
+/-- the bytes of one `read` land behind what is already there and the recorded lengths follow -/
+theorem setLenAll_fill : ∀ (caps : List Nat) (d bs : Bytes), d.length < sumNat caps → 0 < bs.length →
+    (∀ m, (filled caps d)[(posAt caps d.length).1]? = some m → bs.length ≤ m.cap - (posAt caps d.length).2) →
+    setLenAll
+      (modifyNth (fun b => { b with mem := overlay b.mem (posAt caps d.length).2 bs }) (filled caps d)
+        (posAt caps d.length).1)
+      (d.length + bs.length) = .ok (filled caps (d ++ bs)) := by
+  intro caps
+  induction caps with
+  | nil => intro d bs h; simp [sumNat] at h
+  | cons c cs ih =>
+    intro d bs h hb hroom
+    simp only [sumNat] at h
+    simp only [filled, posAt] at hroom ⊢
+    split
+    · rename_i hc
+      have hdt : d.take c = d := List.take_of_length_le (by omega)
+      have hdd : d.drop c = [] := List.drop_of_length_le (by omega)
+      have hr := hroom ⟨d.take c, (d.take c).length, c⟩ (by simp [hc])
+      simp only [hc, if_true] at hr
+      simp only [modifyNth, setLenAll, hdt, hdd]
+      rw [if_neg (by omega)]
+      have hov : overlay d d.length bs = d ++ bs := overlay_at_end d bs
+      have hsub : min c (d.length + bs.length) = d.length + bs.length := by omega
+      simp only [hov, MBuf.setLen, hsub, List.length_append, Nat.le_refl, if_true, Nat.sub_self,
+        setLenAll_zero]
+      have h1 : (d ++ bs).take c = d ++ bs := List.take_of_length_le (by simp; omega)
+      have h2 : (d ++ bs).drop c = [] := List.drop_of_length_le (by simp; omega)
+      rw [h1, h2]
+      simp
+    · rename_i hc
+      have hl : (d.drop c).length = d.length - c := List.length_drop
+      have htl : (d.take c).length = c := by rw [List.length_take]; omega
+      simp only [hc, if_false] at hroom
+      simp only [modifyNth, setLenAll]
+      rw [if_neg (by omega)]
+      have hsub : min c (d.length + bs.length) = c := by omega
+      simp only [MBuf.setLen, hsub, htl, Nat.le_refl, if_true]
+      have hih := ih (d.drop c) bs (by omega) hb (by
+        intro m hm
+        rw [hl] at hm ⊢
+        exact hroom m (by simpa using hm))
+      rw [hl] at hih
+      have hlen : d.length + bs.length - c = d.length - c + bs.length := by omega
+      rw [hlen, hih]
+      have h1 : (d ++ bs).take c = d.take c := by rw [List.take_append_of_le_length (by omega)]
+      have h2 : (d ++ bs).drop c = d.drop c ++ bs := by rw [List.drop_append_of_le_length (by omega)]
+      rw [h1, h2, htl]
+
+theorem modifyNth_id {α : Type} (f : α → α) (hf : ∀ a, f a = a) : ∀ (l : List α) (n : Nat), modifyNth f l n = l := by
+  intro l
+  induction l with
+  | nil => intro n; rfl
+  | cons a r ih => intro n; cases n <;> simp [modifyNth, hf, ih]
+
+/-- **filling the view the default loop selects** (`VectoredBufIter` over `slice_mut(|d|)`): after `d`
+was delivered into fresh buffers, a read of `bs` (at most the room of the current member) leaves the
+buffers as if `d ++ bs` had been delivered; the loop picks the first view, which has room. -/
+theorem fillView_filled (caps : List Nat) (d bs : Bytes) (h : d.length < sumNat caps) :
+    ∃ room, 0 < room ∧ room ≤ sumNat caps - d.length ∧
+      firstRoom (VS.sliceMut (filled caps d) d.length).viewCaps 0 = some (0, room) ∧
+      (bs.length ≤ room →
+        (VS.sliceMut (filled caps d) d.length).fillView 0 bs =
+          .ok { (VS.sliceMut (filled caps d) d.length) with bufs := filled caps (d ++ bs) }) := by
+  obtain ⟨m, h1, h2, h3, h4, h5⟩ := filled_at_pos caps d h
+  have hdrop : (filled caps d).drop (posAt caps d.length).1 = m :: (filled caps d).drop ((posAt caps d.length).1 + 1) := by
+    rw [List.getElem?_eq_some_iff] at h1
+    obtain ⟨hlt, he⟩ := h1
+    rw [← he]
+    exact List.drop_eq_getElem_cons hlt
+  refine ⟨m.cap - (posAt caps d.length).2, by omega, h5, ?_, ?_⟩
+  · simp only [VS.sliceMut, VS.viewCaps, sliceMutPos_filled, hdrop, viewCaps, firstRoom]
+    rw [if_pos (by omega)]
+  · intro hb
+    simp only [VS.fillView, VS.sliceMut, sliceMutPos_filled, VS.initOk, h1, h2, VS.initLens, hdrop, initLens]
+    simp only [Nat.le_refl, decide_true, Bool.not_true, Bool.false_eq_true, if_false, if_true,
+      List.getElem?_cons_zero, Option.getD_some, Nat.sub_self, Nat.add_zero]
+    by_cases hz : bs.length = 0
+    · have hbs : bs = [] := List.eq_nil_of_length_eq_zero hz
+      subst hbs
+      simp only [List.length_nil, Nat.lt_irrefl, if_false, List.append_nil]
+      rw [modifyNth_id]
+      intro a
+      simp
+    · rw [if_pos (by omega)]
+      have := setLenAll_fill caps d bs h (by omega) (by
+        intro m' hm'
+        rw [h1] at hm'
+        cases hm'
+        exact hb)
+      rw [this]
+
 end Compio.Io
